@@ -382,6 +382,38 @@ def _loops_to_comprehensions(fn, count):
     walk(fn)
 
 
+_CTX = {"module": {}, "global": {}}  # literal tables of the module being canonicalised / of all modules of the package
+
+
+def _resolve_table(e, local_tables=None):
+    """(rows, is_dict) of a name / dotted name that denotes a literal table: a local bound once, a constant of this
+    module, or `pkg.mod.NAME` for a constant of another module of the package (matched by the dotted suffix, which
+    must be unique)"""
+    if isinstance(e, ast.Name):
+        for tab in (local_tables or {}, _CTX["module"]):
+            if e.id in tab:
+                return tab[e.id]
+        return None
+    if isinstance(e, ast.Attribute):
+        chain = []
+        x = e
+        while isinstance(x, ast.Attribute):
+            chain.insert(0, x.attr)
+            x = x.value
+        if not isinstance(x, ast.Name):
+            return None
+        chain.insert(0, x.id)
+        var, mods = chain[-1], chain[:-1]
+        hits = []
+        for modname, tabs in _CTX["global"].items():
+            parts = modname.split(".")
+            if var in tabs and len(mods) >= 1 and parts[-1] == mods[-1] and (len(mods) < 2 or parts[-2:] == mods[-2:] or parts[-len(mods) + 1 :] == mods[1:]):
+                hits.append(tabs[var])
+        if len(hits) == 1:
+            return hits[0]
+    return None
+
+
 def _is_literal(e):
     if isinstance(e, ast.Constant):
         return True
@@ -585,12 +617,26 @@ def _unroll_table_loops(scope, module_tables, count):
     local_tables = _once_bound_literals(scope.body, scope) if not isinstance(scope, ast.Module) else {}
 
     def rows_of(it):
-        if isinstance(it, ast.Name):
-            t = local_tables.get(it.id) or module_tables.get(it.id)
+        if isinstance(it, (ast.Name, ast.Attribute)):
+            t = _resolve_table(it, local_tables)
             if t is None:
                 return None
             rows, isdict = t
             return [r.elts[0] for r in rows] if isdict else rows
+        if isinstance(it, (ast.Tuple, ast.List)) and any(isinstance(x, ast.Starred) for x in it.elts):
+            # (*TABLE, "extra"): the members of the table followed by the other elements
+            out_ = []
+            for x in it.elts:
+                if isinstance(x, ast.Starred):
+                    sub = rows_of(x.value)
+                    if sub is None:
+                        return None
+                    out_ += sub
+                elif _is_row(x):
+                    out_.append(x)
+                else:
+                    return None
+            return out_
         if isinstance(it, ast.Call) and isinstance(it.func, ast.Attribute) and it.func.attr in ("items", "keys", "values") and not it.args and isinstance(it.func.value, ast.Name):
             t = local_tables.get(it.func.value.id) or module_tables.get(it.func.value.id)
             if t is None or not t[1]:
@@ -680,6 +726,15 @@ def _const_truth(e):
     """truth value of a test that is decided by literals alone, else None"""
     if isinstance(e, ast.Constant):
         return bool(e.value)
+    if isinstance(e, ast.Compare) and len(e.ops) == 1 and isinstance(e.ops[0], (ast.In, ast.NotIn)) and isinstance(e.left, ast.Constant):
+        t = _resolve_table(e.comparators[0]) if isinstance(e.comparators[0], (ast.Name, ast.Attribute)) else ((list(e.comparators[0].elts), False) if isinstance(e.comparators[0], (ast.Tuple, ast.List, ast.Set)) and all(isinstance(x, ast.Constant) for x in e.comparators[0].elts) else None)
+        if t is not None:
+            rows, isdict = t
+            keys = [r.elts[0] if isdict else r for r in rows]
+            if all(isinstance(k, ast.Constant) for k in keys):
+                member = e.left.value in [k.value for k in keys]
+                return member if isinstance(e.ops[0], ast.In) else not member
+        return None
     if isinstance(e, ast.UnaryOp) and isinstance(e.op, ast.Not):
         v = _const_truth(e.operand)
         return None if v is None else not v
@@ -800,6 +855,20 @@ def _spread_keyword_dicts(fn, count):
     R().visit(fn)
 
 
+class _FoldTables(ast.NodeTransformer):
+    """TABLE["key"] with TABLE a literal dict table and a literal key -> the value"""
+
+    def visit_Subscript(self, node):
+        self.generic_visit(node)
+        if isinstance(node.ctx, ast.Load) and isinstance(node.slice, ast.Constant) and isinstance(node.value, (ast.Name, ast.Attribute)):
+            t = _resolve_table(node.value)
+            if t is not None and t[1]:
+                for r in t[0]:
+                    if isinstance(r.elts[0], ast.Constant) and r.elts[0].value == node.slice.value:
+                        return ast.copy_location(_copy(r.elts[1]), node)
+        return node
+
+
 def _inline_local_factories(fn, count):
     helpers = {}
     stores = {}
@@ -905,14 +974,17 @@ def _inline_local_factories(fn, count):
         if not fold(body) or not flat or not isinstance(flat[-1], ast.Return) or flat[-1].value is None:
             return None
         env = {}
+        rebound = False
         for st in flat[:-1]:
             if not (isinstance(st, ast.Assign) and len(st.targets) == 1 and isinstance(st.targets[0], ast.Name)):
                 return None
             nm = st.targets[0].id
-            if nm in env or nm in mapping:
+            if nm in mapping:
                 return None
-            env[nm] = _Subst(env).visit(st.value) if env else st.value
-        result = flat[-1].value
+            rebound = rebound or nm in env
+            # straight-line code: a later binding of the same name sees the earlier one (`f = np.add; f = wrap(f)`)
+            env[nm] = _FoldTables().visit(_Subst(env).visit(st.value) if env else st.value)
+        result = _FoldTables().visit(flat[-1].value)
         if env:
             uses = {}
             for y in ast.walk(result):
@@ -991,8 +1063,15 @@ def _shadows_builtin(tree, name):
     return any((isinstance(x, ast.Name) and x.id == name and not isinstance(x.ctx, ast.Load)) or (isinstance(x, (ast.FunctionDef, ast.ClassDef)) and x.name == name) or (isinstance(x, ast.arg) and x.arg == name) or (isinstance(x, ast.alias) and (x.asname or x.name) == name) for x in ast.walk(tree))
 
 
-def canonicalise(tree):
+def literal_tables(tree):
+    """module-level literal tables of a parsed module (for the cross-module table of the loader)"""
+    return _once_bound_literals(tree.body, tree)
+
+
+def canonicalise(tree, global_tables=None):
     """rewrite `tree` in place; returns {rewrite: number of applications}"""
+    _CTX["global"] = global_tables or {}
+    _CTX["module"] = {}
     ex = _Exprs()
     ex.visit(tree)
     count = dict(ex.count)
@@ -1001,6 +1080,7 @@ def canonicalise(tree):
     _inline_module_constants(tree, count)
     # K8: table loops (module constants are visible in every function of the module)
     module_tables = _once_bound_literals(tree.body, tree)
+    _CTX["module"] = module_tables
     for fn in [n for n in ast.walk(tree) if isinstance(n, (ast.FunctionDef, ast.AsyncFunctionDef))]:
         _unroll_table_loops(fn, module_tables, count)
     if count.get("K8"):
